@@ -58,6 +58,9 @@ func checkC03(c *ResumeCase) (int, error) {
 		}
 		stB := ss.run(attempt{l: l, pacing: c.E.Pacing})
 		stB.drainLib()
+		if err := stB.panicErr(); err != nil {
+			return runs, fmt.Errorf("resume at tx %d: %v", k, err)
+		}
 		ss.close()
 		runs++
 		req, ok := stB.dump()
@@ -127,7 +130,7 @@ func TestC03(t *testing.T) {
 		}
 		rot := 0
 		for i := su; i < len(c.E.H.Units); i++ {
-			if c.E.H.Units[i].Kind == hist.URotate {
+			if c.E.H.Units[i].Kind == hist.URotate || c.E.H.Units[i].Kind == hist.UFileEnd {
 				rot++
 			}
 		}
@@ -147,6 +150,7 @@ func TestC03(t *testing.T) {
 		if nt {
 			rec.Sample(c)
 		}
+		journal("C03", "c03", c)
 		runs, err := checkC03(c)
 		rec.Class("resume-streams")
 		for i := 1; i < runs; i++ {
